@@ -55,48 +55,46 @@ Proof. exact preimage_injective. Qed.
 Print Assumptions C02_preimage_injective.
 
 (* a stored block: linked to the head, receipts pair with transactions, every transaction hash (block version >= 0.11.0, kinds juno recomputes) and the
-   block hash recompute, the old root is the commitment of the state the node holds (and, on the new state
-   backend [st = true], the root recorded in the head's header), and state + diff has exactly the declared root *)
-Theorem C02_accept_sound : forall ch st cs b cs', accept ch st cs b = Some cs' ->
+   block hash recompute, the old root is the commitment (under the block's protocol version) of the state the
+   node holds, and state + diff has exactly the declared root *)
+Theorem C02_accept_sound : forall ch cs b cs', accept ch cs b = Some cs' ->
   linked cs b /\
   Forall2 (fun t r => t_hash t = r_txhash r) (b_txs b) (b_rcpts b) /\
   (tx_verified b = true -> Forall (tx_recomputes ch) (b_txs b)) /\
   block_hash b = Some (b_hash b) /\
-  (st = true -> b_old_root b = cs_root cs) /\
   commitment (pre_0_14 b) (cs_state cs) = b_old_root b /\
   commitment (pre_0_14 b) (new_state cs b) = h_state_root (b_hdr b) /\
-  cs' = {| cs_head := Some (h_number (b_hdr b), b_hash b); cs_root := h_state_root (b_hdr b);
+  cs' = {| cs_head := Some (h_number (b_hdr b), b_hash b);
            cs_state := new_state cs b; cs_blocks := b :: cs_blocks cs |}.
 Proof. exact accept_sound. Qed.
 Print Assumptions C02_accept_sound.
 
 (* a rejected block changes nothing, at any position of any history *)
-Theorem C02_reject_pure : forall ch st bs1 b bs2,
-  accept ch st (run ch st bs1) b = None -> run ch st (bs1 ++ b :: bs2) = run ch st (bs1 ++ bs2).
+Theorem C02_reject_pure : forall ch bs1 b bs2,
+  accept ch (run ch bs1) b = None -> run ch (bs1 ++ b :: bs2) = run ch (bs1 ++ bs2).
 Proof. exact reject_pure_run. Qed.
 Print Assumptions C02_reject_pure.
 
 (* a block that differs from a valid one in a committed field but carries its hash is rejected *)
-Theorem C02_tamper_rejected : forall ch st cs b b', block_wf b -> block_wf b' -> same_sig_rule b' b ->
+Theorem C02_tamper_rejected : forall ch cs b b', block_wf b -> block_wf b' -> same_sig_rule b' b ->
   block_hash b = Some (b_hash b) -> b_hash b' = b_hash b -> committed b' <> committed b ->
-  accept ch st cs b' = None.
+  accept ch cs b' = None.
 Proof. exact tamper_rejected. Qed.
 Print Assumptions C02_tamper_rejected.
 
-Theorem C02_tx_tamper_rejected : forall ch st cs b' t' body, In t' (b_txs b') -> tx_verified b' = true ->
+Theorem C02_tx_tamper_rejected : forall ch cs b' t' body, In t' (b_txs b') -> tx_verified b' = true ->
   tx_ok body -> tx_ok (t_body t') -> tx_hash ch body = t_hash t' -> t_body t' <> body ->
-  accept ch st cs b' = None.
+  accept ch cs b' = None.
 Proof. exact tx_tamper_rejected. Qed.
 Print Assumptions C02_tx_tamper_rejected.
 
 (* a declared root that is not the commitment of (held state + diff), an old root that is not the commitment
-   of the held state (on either backend; this includes the zero root on a non-empty chain and the root of any
-   older block), an old root that is not the head header's root (new backend), or a broken linkage: rejected *)
-Theorem C02_wrong_root_or_linkage_rejected : forall ch st cs b,
+   of the held state (this includes the zero root on a non-empty chain and the root of any older block), or a
+   broken linkage: rejected *)
+Theorem C02_wrong_root_or_linkage_rejected : forall ch cs b,
   commitment (pre_0_14 b) (new_state cs b) <> h_state_root (b_hdr b) \/
-  commitment (pre_0_14 b) (cs_state cs) <> b_old_root b \/
-  (st = true /\ b_old_root b <> cs_root cs) \/ ~ linked cs b ->
-  accept ch st cs b = None.
+  commitment (pre_0_14 b) (cs_state cs) <> b_old_root b \/ ~ linked cs b ->
+  accept ch cs b = None.
 Proof. exact wrong_root_rejected. Qed.
 Print Assumptions C02_wrong_root_or_linkage_rejected.
 
@@ -120,18 +118,18 @@ Definition ex_d0 : sdiff := {| sd_deployed := [(100, 500)]; sd_replaced := []; s
 Definition ex_d1 : sdiff := {| sd_deployed := []; sd_replaced := []; sd_nonces := []; sd_storage := [(100, [(2, 22)])];
   sd_declared_v0 := []; sd_declared_v1 := [(600, 601)]; sd_migrated := [] |}.
 Definition ex_b0 := seal ex_chain empty_chain (ex_raw (0, 13, 4) ex_d0).
-Definition ex_cs1 := push ex_chain true empty_chain ex_b0.
+Definition ex_cs1 := push ex_chain empty_chain ex_b0.
 Definition ex_b1 := seal ex_chain ex_cs1 (ex_raw (0, 13, 2) ex_d1).
 
-Definition ex_cs2 := push ex_chain true ex_cs1 ex_b1.
+Definition ex_cs2 := push ex_chain ex_cs1 ex_b1.
 Definition ex_d2 : sdiff := {| sd_deployed := []; sd_replaced := []; sd_nonces := [(100, 2)]; sd_storage := [];
   sd_declared_v0 := []; sd_declared_v1 := []; sd_migrated := [] |}.
 Definition ex_b2 := seal ex_chain ex_cs2 (ex_raw (0, 12, 3) ex_d2).
 
-(* all three formats: the sealed blocks are accepted one after the other, with either backend flag *)
+(* all three formats: the sealed blocks are accepted one after the other *)
 Example accept_nontrivial :
-  cs_head (run ex_chain true [ex_b0; ex_b1; ex_b2]) = Some (2, b_hash ex_b2) /\
-  length (cs_blocks (run ex_chain false [ex_b0; ex_b1; ex_b2])) = 3%nat.
+  cs_head (run ex_chain [ex_b0; ex_b1; ex_b2]) = Some (2, b_hash ex_b2) /\
+  length (cs_blocks (run ex_chain [ex_b0; ex_b1; ex_b2])) = 3%nat.
 Proof. vm_compute. split; reflexivity. Qed.
 
 (* a tampered timestamp under the valid hash is rejected; so is the same block presented twice *)
@@ -142,8 +140,8 @@ Definition ex_tampered : block :=
                  h_parent := h_parent (b_hdr ex_b1) |};
      b_txs := b_txs ex_b1; b_rcpts := b_rcpts ex_b1; b_diff := b_diff ex_b1; b_hash := b_hash ex_b1; b_old_root := b_old_root ex_b1 |}.
 Example tamper_nontrivial :
-  accept ex_chain true ex_cs1 ex_tampered = None /\ accept ex_chain false (push ex_chain true ex_cs1 ex_b1) ex_b1 = None /\
-  run ex_chain true [ex_b0; ex_tampered; ex_b1] = run ex_chain true [ex_b0; ex_b1].
+  accept ex_chain ex_cs1 ex_tampered = None /\ accept ex_chain (push ex_chain ex_cs1 ex_b1) ex_b1 = None /\
+  run ex_chain [ex_b0; ex_tampered; ex_b1] = run ex_chain [ex_b0; ex_b1].
 Proof. vm_compute. repeat split; reflexivity. Qed.
 
 (* the hypotheses of the tamper theorem are met by that pair *)
@@ -159,7 +157,7 @@ Qed.
 
 (* the stale-old-root input (fixed defect new-state:store-accepts-stale-old-root): a block sealed on the
    EMPTY chain (old root 0, declared root = commitment of (empty state + its diff)), renumbered and
-   re-parented onto the head of a non-empty chain with its hash recomputed: rejected with either backend flag *)
+   re-parented onto the head of a non-empty chain with its hash recomputed: rejected *)
 Definition ex_dx : sdiff := {| sd_deployed := [(200, 501)]; sd_replaced := []; sd_nonces := [];
   sd_storage := [(200, [(9, 99)])]; sd_declared_v0 := [501]; sd_declared_v1 := []; sd_migrated := [] |}.
 Definition ex_stale : block :=
@@ -175,6 +173,18 @@ Definition ex_stale : block :=
      b_hash := match block_hash b1 with Some x => x | None => TC 0 end; b_old_root := b_old_root g |}.
 Example stale_old_root_rejected :
   b_old_root ex_stale = TC 0 /\ block_hash ex_stale = Some (b_hash ex_stale) /\ linked ex_cs1 ex_stale /\
-  accept ex_chain true ex_cs1 ex_stale = None /\ accept ex_chain false ex_cs1 ex_stale = None /\
-  accept ex_chain true empty_chain (seal ex_chain empty_chain (ex_raw (0, 13, 4) ex_dx)) <> None.
+  accept ex_chain ex_cs1 ex_stale = None /\ accept ex_chain ex_cs1 ex_stale = None /\
+  accept ex_chain empty_chain (seal ex_chain empty_chain (ex_raw (0, 13, 4) ex_dx)) <> None.
 Proof. vm_compute. repeat split; try reflexivity. discriminate. Qed.
+
+(* version crossing with an empty class trie: block 0 under the pre-0.14 rule (root = contract root), block 1
+   under 0.14.0 (root = Poseidon(STATE_V0, contract root, 0)); the old root of block 1 is the commitment of the
+   SAME state under the new rule, not the root written in block 0's header, and the chain extends *)
+Definition ex_x0 := seal ex_chain empty_chain (ex_raw (0, 13, 6) ex_d0).
+Definition ex_xs := push ex_chain empty_chain ex_x0.
+Definition ex_dn : sdiff := {| sd_deployed := []; sd_replaced := []; sd_nonces := [(100, 7)]; sd_storage := [];
+  sd_declared_v0 := []; sd_declared_v1 := []; sd_migrated := [] |}.
+Definition ex_x1 := seal ex_chain ex_xs (ex_raw (0, 14, 0) ex_dn).
+Example version_crossing_extends :
+  b_old_root ex_x1 <> h_state_root (b_hdr ex_x0) /\ cs_head (run ex_chain [ex_x0; ex_x1]) = Some (1, b_hash ex_x1).
+Proof. vm_compute. split; [discriminate | reflexivity]. Qed.
